@@ -2,6 +2,9 @@
 //! hello heads, peer caches) with real replicas on both sides.
 mod acc;
 mod c16;
+mod c18;
+mod c19;
+mod c20;
 mod session;
 mod wire;
 mod world;
@@ -32,6 +35,9 @@ fn main() {
     mcx::quiet_panics();
     match args.prop.as_str() {
         p @ ("C16" | "C17") => c16::run(&args, p),
+        "C18" => c18::run(&args),
+        "C19" => c19::run(&args),
+        "C20" => c20::run(&args),
         p => mcx::machinery_error(&format!("rt-sync does not serve {p}")),
     }
 }
